@@ -115,11 +115,7 @@ def rule_o1(repo, col, funcnames):
                     return st
                 a = node.ast
                 if node.kind == "test":
-                    if _zero_test(a, var):
-                        return st
-                    if _reads(a, var):
-                        return frozenset()  # sign test or other use consumes the verdict
-                    return st
+                    return st  # refined on the out-edges (zero tests and sign tests)
                 if node.kind == "loop":
                     if _reads(a.iter, var):
                         return frozenset()
@@ -135,6 +131,10 @@ def rule_o1(repo, col, funcnames):
                     return st
                 if isinstance(lab, tuple) and lab[0] != "iter":
                     z = _zero_test(lab[0], var)
+                    if z is None and _reads(lab[0], var):
+                        # a sign test (res < 0, res > 0, ...): the true edge has established the sign (the branch
+                        # is expected to return it); on the false edge the verdict may still be non-zero
+                        return frozenset() if lab[1] else st
                     if z is not None:
                         truth = lab[1] if z == "eq" else (not lab[1])  # truth of "var == 0"
                         out = set()
